@@ -27,6 +27,8 @@ def Op.wf : Op → Bool
   | .construct _ cap => cap < W
   | .append _ d => d.length < W
   | .appendSelf _ off k => off < W ∧ k < W
+  | .appendFrom _ _ off k => off < W ∧ k < W
+  | .fetchSelf _ n => n < W
   | .reserve _ n => n < W
   | .rwc _ n d => n < W ∧ d.length < W
   | .over _ n => n < W
@@ -41,6 +43,9 @@ def specStep (s : Spec) : Op → Spec × List Byte
   | .append i d => (s.put i (s.get i ++ d), [])
   | .appendSelf i off k =>
       if off + k ≤ (s.get i).length then (s.put i (s.get i ++ ((s.get i).drop off).take k), []) else (s, [])
+  | .appendFrom i j off k =>
+      if i = j ∨ off + k > (s.get j).length then (s, []) else (s.put i (s.get i ++ ((s.get j).drop off).take k), [])
+  | .fetchSelf i n => (s.put i ((s.get i).drop n), (s.get i).take n)
   | .reserve _ _ => (s, [])
   | .rwc i _ d => (s.put i (s.get i ++ d), [])
   | .over _ _ => (s, [])          -- outside the contract, never used by the theorems
@@ -76,6 +81,30 @@ def specRun (s : Spec) : List (Bool × Op) → Spec × List (List Byte)
       let (s1, o) := specStepF f s op
       let (s2, os) := specRun s1 ops
       (s2, o :: os)
+
+/-- the buffers an operation names -/
+def Op.slots : Op → List Nat
+  | .construct i _ | .defaultCtor i | .append i _ | .appendSelf i _ _ | .fetchSelf i _ | .reserve i _ | .rwc i _ _
+  | .over i _ | .fetch i _ | .consume i _ | .consumeAll i | .shrink i | .reset i => [i]
+  | .appendFrom i j _ _ | .swap i j => [i, j]
+  | .copyAssign d c | .moveAssign d c | .copyCtor d c | .moveCtor d c => [d, c]
+
+/-- A composite C++ statement sequence (`Buffer c(b); b = c;`): the statements run until one throws
+`std::bad_alloc`; the rest is skipped. -/
+def runUntilThrow (s : Store) : List (Alloc × Op) → Store × List Out
+  | [] => (s, [])
+  | (al, op) :: ops =>
+      let (s1, o) := step al s op
+      if o.st = .badAlloc then (s1, [o])
+      else
+        let (s2, os) := runUntilThrow s1 ops
+        (s2, o :: os)
+
+/-- … and the destructors of its temporaries (`cleanup`) run in either case -/
+def runScript (s : Store) (body cleanup : List (Alloc × Op)) : Store × List Out :=
+  let (s1, os) := runUntilThrow s body
+  let (s2, os2) := run s1 cleanup
+  (s2, os ++ os2)
 
 /-- the operations of a run paired with the failure reports of the implementation -/
 def failures (s : Store) : List (Alloc × Op) → List (Bool × Op)
